@@ -68,6 +68,10 @@ pub struct ReqScript {
     /// the same order again after the earlier cancel was answered or timed out
     #[serde(default)]
     pub retry_of: Option<u8>,
+    /// use the client order id "shared" (ids are unique per instrument only): taken when no earlier
+    /// request of the same kind for the same instrument already uses it
+    #[serde(default)]
+    pub shared_cid: bool,
 }
 
 #[derive(Debug, Clone, Serialize, Deserialize)]
@@ -102,8 +106,8 @@ pub struct Received {
 
 #[derive(Debug, Clone, Default)]
 pub struct ScriptClientConfig {
-    /// keyed by (is_open, cid): one behaviour per request with that id, in send order
-    pub behaviours: Arc<Mutex<HashMap<(bool, String), std::collections::VecDeque<Behaviour>>>>,
+    /// keyed by (is_open, instrument name, cid): one behaviour per request with that key, in send order
+    pub behaviours: Arc<Mutex<HashMap<(bool, String, String), std::collections::VecDeque<Behaviour>>>>,
     pub received: Arc<Mutex<Vec<Received>>>,
 }
 
@@ -111,8 +115,8 @@ pub struct ScriptClientConfig {
 pub struct ScriptClient(pub ScriptClientConfig);
 
 impl ScriptClient {
-    fn behaviour(&self, open: bool, cid: &ClientOrderId) -> Behaviour {
-        self.0.behaviours.lock().unwrap().get_mut(&(open, cid.0.to_string())).and_then(|q| q.pop_front()).expect("scripted behaviour for every request")
+    fn behaviour(&self, open: bool, instrument: &InstrumentNameExchange, cid: &ClientOrderId) -> Behaviour {
+        self.0.behaviours.lock().unwrap().get_mut(&(open, instrument.to_string(), cid.0.to_string())).and_then(|q| q.pop_front()).expect("scripted behaviour for every request")
     }
 }
 
@@ -134,7 +138,7 @@ impl ExecutionClient for ScriptClient {
     }
 
     fn cancel_order(&self, request: OrderRequestCancel<ExchangeId, &InstrumentNameExchange>) -> impl Future<Output = UnindexedOrderResponseCancel> + Send {
-        let b = self.behaviour(false, &request.key.cid);
+        let b = self.behaviour(false, request.key.instrument, &request.key.cid);
         self.0.received.lock().unwrap().push(Received { open: false, exchange: request.key.exchange, instrument: request.key.instrument.clone(), cid: request.key.cid.clone() });
         let key = OrderKey { exchange: request.key.exchange, instrument: request.key.instrument.clone(), strategy: request.key.strategy.clone(), cid: request.key.cid.clone() };
         async move {
@@ -152,7 +156,7 @@ impl ExecutionClient for ScriptClient {
     }
 
     fn open_order(&self, request: OrderRequestOpen<ExchangeId, &InstrumentNameExchange>) -> impl Future<Output = Order<ExchangeId, InstrumentNameExchange, Result<Open, UnindexedOrderError>>> + Send {
-        let b = self.behaviour(true, &request.key.cid);
+        let b = self.behaviour(true, request.key.instrument, &request.key.cid);
         self.0.received.lock().unwrap().push(Received { open: true, exchange: request.key.exchange, instrument: request.key.instrument.clone(), cid: request.key.cid.clone() });
         let key = OrderKey { exchange: request.key.exchange, instrument: request.key.instrument.clone(), strategy: request.key.strategy.clone(), cid: request.key.cid.clone() };
         let st = request.state.clone();
@@ -187,7 +191,7 @@ impl ExecutionClient for ScriptClient {
 
 pub struct ManagerExactlyOnce;
 
-fn req_script() -> impl Strategy<Value = (bool, u8, u32, Option<u32>, Resp, Option<u8>)> {
+fn req_script() -> impl Strategy<Value = (bool, u8, u32, Option<u32>, Resp, Option<u8>, bool)> {
     (
         prop::bool::weighted(0.65),
         any::<u8>(),
@@ -199,6 +203,7 @@ fn req_script() -> impl Strategy<Value = (bool, u8, u32, Option<u32>, Resp, Opti
             1 => Just(Resp::ErrConn),
         ],
         prop::option::weighted(0.4, any::<u8>()),
+        prop::bool::weighted(0.3),
     )
 }
 
@@ -228,7 +233,7 @@ impl Check for ManagerExactlyOnce {
             }
         }
         if case.requests.is_empty() {
-            case.requests.push(ReqScript { open: true, inst_sel: 0, send_ms: 0, delay_ms: Some(1), resp: Resp::Ok { filled: 0 }, retry_of: None });
+            case.requests.push(ReqScript { open: true, inst_sel: 0, send_ms: 0, delay_ms: Some(1), resp: Resp::Ok { filled: 0 }, retry_of: None, shared_cid: false });
         }
         case
     }
@@ -243,7 +248,7 @@ impl Check for ManagerExactlyOnce {
                 let t = timeout_ms as u64;
                 let requests = reqs
                     .into_iter()
-                    .map(|(open, inst_sel, send_pm, delay_pm, resp, retry_of)| {
+                    .map(|(open, inst_sel, send_pm, delay_pm, resp, retry_of, shared_cid)| {
                         let send_ms = (send_pm as u64 * 3 * t / 3000) as u32;
                         let delay_ms = delay_pm.map(|pm| {
                             let mut d = (pm as u64 * 2 * t / 2000) as u32;
@@ -253,7 +258,7 @@ impl Check for ManagerExactlyOnce {
                             }
                             d
                         });
-                        ReqScript { open, inst_sel, send_ms, delay_ms, resp, retry_of }
+                        ReqScript { open, inst_sel, send_ms, delay_ms, resp, retry_of, shared_cid }
                     })
                     .collect();
                 ManagerCase { defs, exchange_sel, timeout_ms, requests }
@@ -295,6 +300,9 @@ impl Check for ManagerExactlyOnce {
         for (n, r) in case.requests.iter().enumerate() {
             let mut ins = own[r.inst_sel as usize % own.len()];
             let mut cid = ClientOrderId::new(format!("c{n}"));
+            if r.shared_cid && !reqs.iter().any(|q| q.open == r.open && q.inst == ins.key && q.cid.0 == "shared") {
+                cid = ClientOrderId::new("shared");
+            }
             let mut delay = r.delay_ms.map(|d| d as u64);
             if delay == Some(timeout as u64) {
                 delay = Some(timeout as u64 + 1);
@@ -308,14 +316,14 @@ impl Check for ManagerExactlyOnce {
                 let first = &reqs[earlier_cancels[(sel as usize * earlier_cancels.len()) >> 8]];
                 cid = first.cid.clone();
                 ins = own.iter().copied().find(|i| i.key == first.inst).expect("own instrument");
-                let chain: Vec<&R> = reqs.iter().filter(|q| !q.open && q.cid == cid).collect();
+                let chain: Vec<&R> = reqs.iter().filter(|q| !q.open && q.cid == cid && q.inst == ins.key).collect();
                 nth = chain.len();
                 let last = chain[nth - 1];
                 let resolved = last.send_ms + last.delay_ms.map_or(timeout as u64, |d| d.min(timeout as u64));
                 send_ms = send_ms.max(resolved + 1);
             }
             let asset_name = indexed.assets()[ins.value.underlying.quote.index()].value.asset.name_exchange.clone();
-            config.behaviours.lock().unwrap().entry((r.open, cid.0.to_string())).or_default().push_back(Behaviour { delay_ms: delay.map(|d| d as u32), resp: r.resp, asset_name });
+            config.behaviours.lock().unwrap().entry((r.open, ins.value.name_exchange.to_string(), cid.0.to_string())).or_default().push_back(Behaviour { delay_ms: delay.map(|d| d as u32), resp: r.resp, asset_name });
             reqs.push(R { open: r.open, inst: ins.key, name: ins.value.name_exchange.clone(), cid, send_ms, delay_ms: delay, resp: r.resp, quote_asset: ins.value.underlying.quote, nth });
         }
         let mut order: Vec<usize> = (0..reqs.len()).collect();
@@ -382,8 +390,8 @@ impl Check for ManagerExactlyOnce {
         // the client saw every request once, addressed to the instrument's exchange name
         let received = config.received.lock().unwrap().clone();
         for r in &reqs {
-            let hits: Vec<_> = received.iter().filter(|x| x.open == r.open && x.cid == r.cid).collect();
-            let sent = reqs.iter().filter(|q| q.open == r.open && q.cid == r.cid).count();
+            let hits: Vec<_> = received.iter().filter(|x| x.open == r.open && x.cid == r.cid && x.instrument == r.name).collect();
+            let sent = reqs.iter().filter(|q| q.open == r.open && q.cid == r.cid && q.inst == r.inst).count();
             if hits.len() != sent {
                 bad!("client-delivery", "client received request {}/{} {} times, it was sent {sent} time(s)", if r.open { "open" } else { "cancel" }, r.cid, hits.len());
             }
@@ -405,14 +413,14 @@ impl Check for ManagerExactlyOnce {
                 .iter()
                 .filter(|(_, ev)| match ev {
                     AccountStreamEvent::Item(e) => match &e.kind {
-                        AccountEventKind::OrderSnapshot(s) => r.open && s.0.key.cid == r.cid,
-                        AccountEventKind::OrderCancelled(c) => !r.open && c.key.cid == r.cid,
+                        AccountEventKind::OrderSnapshot(s) => r.open && s.0.key.cid == r.cid && s.0.key.instrument == r.inst,
+                        AccountEventKind::OrderCancelled(c) => !r.open && c.key.cid == r.cid && c.key.instrument == r.inst,
                         _ => false,
                     },
                     _ => false,
                 })
                 .collect();
-            let sent = reqs.iter().filter(|q| q.open == r.open && q.cid == r.cid).count();
+            let sent = reqs.iter().filter(|q| q.open == r.open && q.cid == r.cid && q.inst == r.inst).count();
             let what = format!("{} {} (request {} of {sent} with that id, send {} ms, delay {:?} ms, timeout {} ms, {:?})", if r.open { "open" } else { "cancel" }, r.cid, r.nth + 1, r.send_ms, r.delay_ms, timeout, r.resp);
             if mine.len() <= r.nth {
                 bad!("request-unanswered", "no account event for {what}: {} event(s) carry that id", mine.len());
@@ -504,6 +512,7 @@ impl Check for ManagerExactlyOnce {
         rep.class_if(ex_idx.index() > 0, "manager_of_non_first_exchange");
         rep.class_if(reqs.iter().any(|r| r.delay_ms.is_none()), "client_never_answers");
         rep.class_if(reqs.iter().any(|r| r.nth > 0), "cancel_repeated_for_same_order");
+        rep.class_if(reqs.iter().any(|r| reqs.iter().any(|q| q.open == r.open && q.cid == r.cid && q.inst != r.inst)), "client_order_id_shared_by_two_instruments");
         rep.class_if(reqs.iter().any(|r| r.nth > 0 && reqs.iter().any(|q| !q.open && q.cid == r.cid && q.nth + 1 == r.nth && !q.delay_ms.is_some_and(|d| d < timeout as u64))), "cancel_repeated_after_timeout");
         rep.nontrivial = max_outstanding >= 3 && timeouts > 0 && responses > 0 && out_of_send_order;
         rep
@@ -515,7 +524,7 @@ pub fn run(ctx: &mut Ctx) {
     ctx.assumptions = vec![
         "tokio test-util paused clock: virtual time advances only when every task is idle".into(),
         "client responses name assets/instruments known to the exchange's map (an un-indexable response is filtered by design and out of scope)".into(),
-        "client order ids are unique per open request; a cancel may be repeated for the same order only after the previous cancel for it was answered or timed out (>= 1 ms later)".into(),
+        "client order ids are unique per (instrument, open request) — 30% of the requests use the id 'shared', so different instruments share it; a cancel may be repeated for the same order only after the previous cancel for it was answered or timed out (>= 1 ms later)".into(),
         "'eventually resolved' is decided as bounded: by send + timeout".into(),
     ];
     ctx.run_regressions::<ManagerExactlyOnce>();
